@@ -34,6 +34,7 @@ func init() {
 			{ID: "C11-R1", Doc: "spilled runs are encoded from views at non-zero offsets: codecs are handed exactly the view's rows (shared)", Run: c11r1},
 			{ID: "C10-R11", Doc: "frames on which a reader compares or hashes keys take their key prefix from the reader's own type, never from the caller's destination frame (shared)", Run: c10r11},
 			{ID: "C09-R11", Doc: "no error is swallowed by a redeclaration that shadows a named error result", Run: c09r11},
+			{ID: "C09-R12", Doc: "the worker's combining path folds every row read, once, into the partition the partitioner chose", Run: c09r12},
 			{ID: "C10-R6", Doc: "reducing merge: combined value stored before refill (shared)", Run: c10r6},
 		},
 	})
